@@ -831,6 +831,58 @@ fn local_any_race(c: &Case, out: &mut Outcome) {
     }
 }
 
+/// A compound whose load stores a placeholder under its own key (re-entrant insertion) and then returns another
+/// value: the key is occupied when the loaded value arrives, so the loaded value is the one that is dropped; the
+/// placeholder - to which a handle was already handed out - stays.
+struct Reent {
+    tok: Tracked,
+}
+thread_local! {
+    static REENT_SEEN: std::cell::Cell<(usize, u64)> = const { std::cell::Cell::new((0, 0)) };
+}
+impl assets_manager::Compound for Reent {
+    fn load(cache: AnyCache, id: &assets_manager::SharedString) -> Result<Self, BoxedError> {
+        let placeholder = Reent { tok: Tracked::new() };
+        let token = placeholder.tok.token;
+        let h = cache.get_or_insert(id, placeholder);
+        REENT_SEEN.with(|s| s.set((h as *const assets_manager::Handle<Reent> as usize, token)));
+        Ok(Reent { tok: Tracked::new() })
+    }
+}
+
+fn reentrant_insertion(out: &mut Outcome) {
+    macro_rules! go {
+        ($cache:expr, $what:expr) => {{
+            ledger::reset();
+            let cache = $cache;
+            match cache.as_any_cache().load::<Reent>("re") {
+                Ok(h) => {
+                    let (p, token) = REENT_SEEN.with(|s| s.get());
+                    let g = h.read();
+                    g.tok.touch();
+                    let alive = ledger::alive_tokens();
+                    if h as *const assets_manager::Handle<Reent> as usize != p || g.tok.token != token || alive != vec![token] || ledger::use_after_drop() != 0 {
+                        out.fail(
+                            "reentrant-insert",
+                            format!("{}: a compound stored a placeholder (token {token}, handle {p:#x}) under its own key while it was being loaded: afterwards load returns handle {:#x} reading token {}, alive values {alive:?}, reads of dropped values {} (the placeholder must stay, the loaded value must be the one that is dropped)", $what, h as *const assets_manager::Handle<Reent> as usize, g.tok.token, ledger::use_after_drop()),
+                        );
+                    }
+                }
+                Err(e) => out.fail("reentrant-insert", format!("{}: loading the compound failed: {e}", $what)),
+            }
+            drop(cache);
+            if !out.failed() && (ledger::alive_count() != 0 || ledger::double_drops() != 0) {
+                out.fail("final-drop-accounting", format!("{}: after dropping the cache {} tracked values are alive, {} double drops", $what, ledger::alive_count(), ledger::double_drops()));
+            }
+        }};
+    }
+    go!(LocalAssetCache::with_source(MemSource::new(false)), "LocalAssetCache");
+    if !out.failed() {
+        go!(AssetCache::with_source(MemSource::new(false)), "AssetCache");
+    }
+    out.label("reentrant-insertion");
+}
+
 pub struct C13;
 
 fn t_s() -> impl Strategy<Value = T> {
@@ -864,7 +916,7 @@ impl Prop for C13 {
 
     fn rule(&self) -> String {
         "cases = histories over 3 ids x four value layouts (zero-sized, one byte, heap-owning, 64-byte aligned; all assets) of load, load_owned, get_or_insert, remove, take, clear, successful and failing reloads (undecodable file, deleted file), notified changes of files whose asset was removed or taken, reloads in which the destructor of the replaced value panics, \
-         reloads while a reader thread holds a guard, 2..4 threads loading one uncached key at the same instant (rendezvous in the loader; in half of these races one thread stores a value with get_or_insert while the others are inside the loader: that value stays), dropping owned values, and wrong-type views of cached handles; with and without a reloader; in a fifth of the cases 2..4 workers then use the AnyCache view of a LocalAssetCache (on threads iff AnyCache is Sync - decided at compile time - else sequentially). \
+         reloads while a reader thread holds a guard, 2..4 threads loading one uncached key at the same instant (rendezvous in the loader; in half of these races one thread stores a value with get_or_insert while the others are inside the loader: that value stays), dropping owned values, and wrong-type views of cached handles; with and without a reloader; in a fifth of the cases 2..4 workers then use the AnyCache view of a LocalAssetCache (on threads iff AnyCache is Sync - decided at compile time - else sequentially), and a compound that stores a placeholder under its own key while it is being loaded (LocalAssetCache and AssetCache: the placeholder stays). \
          Oracle after every step: the set of live tracked values equals exactly {values reachable through the cache} + {values owned by the caller} (drop ledger; counters for the untracked layouts), nothing dropped twice, nothing read after its drop, \
          content and alignment intact, racers agree on one handle and value, the value behind a live guard neither changes nor dies, take returns the stored value; untyped views answer is/downcast_ref/read().downcast true for the stored type only; \
          at the end everything is dropped exactly once and the checking allocator saw no bad free. \
@@ -918,6 +970,9 @@ impl Prop for C13 {
         }
         if c.local_any_workers >= 2 && !out.failed() {
             local_any_race(&c, &mut out);
+            if !out.failed() {
+                reentrant_insertion(&mut out);
+            }
         }
         out
     }
